@@ -162,12 +162,20 @@ static int encode_special_opd(struct instr *instrc, int m, int i) {
         instrc->hex.rex |= rex_w;
       reg_r++;
     }
-    if ((MODE_MASK & instrc->opd[m].reg) == ext64)
-      instrc->hex.rex |= rex_ + rex_b;
     FAIL_IF(get_reg(instrc, &instrc->opd[m], reg_r));
-    instrc->rd_offset = (instrc->opd[m].reg & VALUE_MASK);
-    if (instrc->mem_disp)
-      instrc->rd_offset |= instrc->mod_disp;
+    if (instrc->mem_disp) {
+      // mod and r/m as get_reg worked them out (r/m is 100 with a SIB byte)
+      instrc->rd_offset = instrc->hex.reg & (MOD24 | VALUE_MASK);
+      // base and index registers of the x64 extended set
+      if (instrc->opd[m].reg != NO_BASE && (instrc->opd[m].reg & REG_RB))
+        instrc->hex.rex |= rex_ + rex_b;
+      if (instrc->opd[m].index != reg_none && (instrc->opd[m].index & REG_RB))
+        instrc->hex.rex |= rex_ + rex_x;
+    } else {
+      if ((MODE_MASK & instrc->opd[m].reg) == ext64)
+        instrc->hex.rex |= rex_ + rex_b;
+      instrc->rd_offset = (instrc->opd[m].reg & VALUE_MASK);
+    }
     break;
 
   case I:
